@@ -539,7 +539,21 @@ def run_case(case):
                 b, oid = w.model.transit.pop()
                 tmp = pickle.loads(b)
                 tmp = None
-            w.compare(i + 1, 'final-drop-all')
+            if not w.compare(i + 1, 'final-drop-all'):
+                return
+            if case['seed'] % 3 == 0:
+                # last of all: a pickling that FAILS after the proxy's __reduce__ has run (the proxy travels together with something
+                # unpicklable).  No serialized form exists afterwards, so nothing may count as a reference.
+                fresh = w.manager.list([0])
+                w._register(0, 'fp', fresh, 'list')
+                fresh = None
+                if not w.compare(i + 2, 'create:list'):
+                    return
+                try:
+                    pickle.dumps([w.reg['fp'], lambda: 0])
+                except Exception:  # noqa: BLE001
+                    obs['failed_picklings'] = obs.get('failed_picklings', 0) + 1
+                w.compare(i + 3, 'failed_pickle')
         finally:
             w.close()
 
